@@ -1,3 +1,108 @@
-import MesaModel.Model.CopySet
+import MesaModel.Proofs.CopySetMain
+/-!
+# C19, AgentSet half — a deep copy / pickle round trip of an AgentSet is faithful, lasting and detached
+
+Model: `Model/CopySet.lean` (identities; weak members; models own their agents; `Agent._ids`; liveness as after a garbage
+collection; copy by identity shift).  `view w s` is what the program reads from set `s`: for every member that is alive its
+identity, `unique_id`, attribute value and model, in the set's order, and the state of the set's generator.
+All theorems hold for every well-formed world, and every world reached by any history is well-formed
+(`C19_agentset_reachable_wf`).
+-/
 namespace Mesa.CopySet
+
+/-- every world reached by a history of operations is well-formed (the hypothesis of the theorems below) -/
+theorem C19_agentset_reachable_wf (ops : List Op) : WF (run init ops) := WF.init.run ops
+
+/-- **Faithful and lasting.**  The copy shows the same `unique_id`s and attribute values in the same order and an equal
+    generator state; every object it shows is a new one (`old + next`: members and their models).  `view` only shows members
+    that survive a garbage collection, so the copy keeps its members (this is what the repair S24 establishes). -/
+theorem C19_agentset_copy_faithful (w : World) (t : Nat) (w' : World) (t' : Nat) (hc : copySet w t = some (w', t')) :
+    ∃ items script, view w t = some (items, script) ∧
+      view w' t' = some (items.map (fun (a, u, x, m) => (a + w.next, u, x, m + w.next)), script) := by
+  obtain ⟨items, script, h1, _, h2⟩ := copy_view t hc
+  exact ⟨items, script, h1, h2⟩
+
+/-- a small history: a model with a scripted generator, three agents, a set over two of them (in another order) -/
+def demo : World := run init [.newModel [3, 1, 4], .create 1 2, .create 1 0, .create 1 5, .mkSet 1 [3, 2]]
+
+example : view demo 5 = some ([(3, 2, 0, 1), (2, 1, 2, 1)], [3, 1, 4]) := by decide
+
+/-- what the copy of set `t` shows (`k = false`: the code before S24) -/
+def copyView (w : World) (t : Nat) (k : Bool) : Option (List (Nat × Nat × Int × Nat) × List Nat) :=
+  match copySet w t k with
+  | some (w', t') => view w' t'
+  | none => none
+
+example : copyView demo 5 true = some ([(9, 2, 0, 7), (8, 1, 2, 7)], [3, 1, 4]) := by decide
+
+/-- **The code before S24 violates the property**: without `_restored_models` nothing references the reconstructed model,
+    and after a garbage collection the copy of a two-member set shows no member at all. -/
+theorem C19_agentset_copy_without_owners_loses_members :
+    view demo 5 = some ([(3, 2, 0, 1), (2, 1, 2, 1)], [3, 1, 4]) ∧ copyView demo 5 false = some ([], [3, 1, 4]) :=
+  ⟨by decide, by decide⟩
+
+/-- **Frame.**  A history none of whose operations writes an object the set depends on (the set, its generator, its members,
+    their models) leaves what the set shows unchanged — whatever else it creates, removes, reorders or copies. -/
+theorem C19_agentset_frame (w : World) (hw : WF w) (s : Nat) (r : SetRec) (hr : w.sets s = some r) (ops : List Op)
+    (hav : WritesOnly (fun x => x ∉ deps w s) w ops) : view (run w ops) s = view w s :=
+  frame_run hw hr ops hav
+
+/-- **The copy leaves every existing set as it was** (also its liveness: copying creates no reference to an old object). -/
+theorem C19_agentset_original_untouched_by_copy (w : World) (hw : WF w) (t s : Nat) (hs : s < w.next)
+    (w' : World) (t' : Nat) (hc : copySet w t = some (w', t')) : view w' s = view w s :=
+  (agree_copy hw hs t true hc).view_eq
+
+/-- **Detached, both ways.**  After `copy t`:
+    operations that only write objects created by or after the copy never change what the original shows, and
+    operations that only write objects that existed before the copy never change what the copy shows —
+    for operation sequences of any length. -/
+theorem C19_agentset_copy_detached (w : World) (hw : WF w) (t : Nat) (w' : World) (t' : Nat)
+    (hc : copySet w t = some (w', t')) :
+    (∀ ops, WritesOnly (fun x => w.next ≤ x) w' ops → view (run w' ops) t = view w t) ∧
+    (∀ ops, WritesOnly (fun x => x < w.next) w' ops → view (run w' ops) t' = view w' t') := by
+  have hw' : WF w' := by
+    have := hw.step (.copy t)
+    simpa [step, hc] using this
+  cases hr : w.sets t with
+  | none => simp [copySet, hr] at hc
+  | some r =>
+    have ht : t < w.next := (hw.setsLt t r hr).1
+    have hag := agree_copy hw ht t true hc
+    constructor
+    · intro ops hwo
+      have hr' : w'.sets t = some r := by rw [hag.set, hr]
+      have := frame_run hw' hr' ops (hwo.mono (fun x hx hmem => by
+        rw [hag.deps_eq] at hmem
+        have := deps_lt hw ht x hmem
+        omega))
+      rw [this, hag.view_eq]
+    · intro ops hwo
+      have ht' : t' = t + w.next := by
+        simp only [copySet, hr, Option.some.injEq, Prod.mk.injEq] at hc
+        exact hc.2.symm
+      have hr' : ∃ r', w'.sets t' = some r' := by
+        simp only [copySet, hr, Option.some.injEq, Prod.mk.injEq] at hc
+        obtain ⟨rfl, rfl⟩ := hc
+        exact ⟨_, copyWorld_sets_new t r true⟩
+      obtain ⟨r', hr'⟩ := hr'
+      exact frame_run hw' hr' ops (hwo.mono (fun x hx hmem => by
+        have := copy_deps_fresh t hc x hmem
+        omega))
+
+/-- the world after copying the demo set -/
+def demoCopy : World := match copySet demo 5 with | some p => p.1 | none => demo
+
+/-- the two premises of `C19_agentset_copy_detached` are satisfiable by real work on either side: shuffling the copy and
+    removing one of its members writes fresh objects only; changing an attribute of an original member, creating an agent in
+    the original model and sorting the original set writes old objects only -/
+example : WritesOnly (fun x => demo.next ≤ x) demoCopy [.shuffle 11, .remove 9] := by
+  simp only [WritesOnly]
+  decide
+
+example : WritesOnly (fun x => x < demo.next) demoCopy [.setW 3 7, .create 1 4, .sortW 5] := by
+  simp only [WritesOnly]
+  decide
+
+example : view (run demoCopy [.shuffle 11, .remove 9]) 11 = some ([(8, 1, 2, 7)], [1, 4]) := by decide
+
 end Mesa.CopySet
